@@ -34,7 +34,7 @@ def search(unit, srch, r):
         return {"search_note": txt}
     m = re.search(r"VERIF-COUNTEREXAMPLE policy=(\S+) ops=(\S*) :: (.*)", txt)
     if not m:
-        if "test result: ok" in txt:
+        if "test result: ok" in txt and re.search(r"test result: ok\. [1-9]\d* passed", txt):
             return {"search_note": f"bounded native search (depth {srch.get('depth', 5)}) found no failing sequence"}
         return {"search_note": "native search did not run: " + txt[-1500:]}
     return {
